@@ -446,6 +446,7 @@ pub fn run(ctx: &Ctx, rep: &Report) -> Meta {
         rep.exhaustive("every single-bit flip, every extension by 1..=64 octets and every truncation of each honest encoding of the exhaustive-bit-flips shapes".into());
     }
     run_cases(ctx, rep, "codecs", ctx.tier.pick(160, 2000), 100, strat, |c| check(rep, "codecs", c));
+    crate::fuzzdrv::smoke(ctx, rep, "c09_canon", "byte-level-entry", ctx.tier.pick(20000, 200000));
     if ctx.tier == Tier::Thorough && !rep.aborted() {
         crate::fuzzdrv::run_campaign(ctx, rep, "c09_canon", "libfuzzer-decode-encode");
     }
@@ -464,7 +465,7 @@ pub fn run(ctx: &Ctx, rep: &Report) -> Meta {
 }
 
 pub fn replay(_ctx: &Ctx, rep: &Report, ck: &str, case: &Value) -> CheckResult {
-    if ck.starts_with("libfuzzer") {
+    if ck.starts_with("libfuzzer") || ck == "byte-level-entry" {
         return crate::fuzzdrv::replay_input(rep, ck, case);
     }
     let c: Case = serde_json::from_value(case["case"].clone()).map_err(|e| Fail {
